@@ -5508,6 +5508,13 @@ class PyCdlib:
             # Rule 9
             raise pycdlibexception.PyCdlibInvalidInput('A Joliet path can only be specified for a Joliet ISO')
 
+        # The namespaces are dealt with one after the other below; what the
+        # later ones would refuse is refused now, while nothing has changed.
+        if udf_symlink_path is not None:
+            self._check_new_udf_path(udf_symlink_path)
+        if joliet_path is not None:
+            self._check_new_joliet_path(joliet_path)
+
         rr_symlink_name_bytes = b''
         if rr_symlink_name is not None:
             # The name of a symlink obeys the rules of any Rock Ridge name.
